@@ -18,9 +18,20 @@ Proved for every heap the machine can reach, with no bound on histories, sizes o
   (`C10_identity_nonrelocating`); and references only ever become stale through `List::grow`
   (`C10_stale_only_by_growth`);
 * `C10_witness_alias_split` — D7 on the model; hence `C10_full` is false (`C10_full_false`).
+* refused operations (round 4): `C10_refused_method_unchanged` (list.rs: `insert` → OutOfBounds,
+  `remove` → OutOfBounds, `pop` → None leave EVERY heap literally unchanged, no relocation),
+  `C10_refused_leaves_heap` / `C10_refused_identity_contents` (the same in Spec terms: a mutation the
+  list refuses changes no identity, no contents, no header), `C10_refused_native` (every failing
+  branch of every native of the machine: no relocation; heap and stack untouched when the receiver's
+  header is `Here`), `C10_refused_call_no_stale` (a call that raises makes no alias stale) — a
+  relocation caused by a refused operation is therefore NOT an instance of D7;
+  `gen_method_order_match` & co. tie the order "bound test, refusal, ensure_capacity, writes" and the
+  natives' guards to the Rust text.
 -/
 import LaytheVerif.Lemmas.ListFwdOps
+import LaytheVerif.Lemmas.ListFwdReject
 import LaytheVerif.Gen.ListFwdTables
+import LaytheVerif.Gen.ListFwdOrder
 namespace LaytheVerif.C10
 open LaytheVerif.ListFwd
 
@@ -418,6 +429,58 @@ theorem gen_rules_match :
     Gen.ListFwd.objectRefDerives.contains "PartialEq" = true ∧ Gen.ListFwd.objectRefDerives.contains "Hash" = true ∧
     Gen.ListFwd.normalNativesCopyArgs = true ∧ Gen.ListFwd.otherScanningFiles = [] := by decide
 
+/-- the events of each mutating `List` method (its `Here` arm) in the order in which `listPop`,
+`listRemove`, `listPush`, `listInsert` perform them: bound test, refusal, `ensure_capacity`, writes -/
+def methodShape : List (String × List String) :=
+  [("pop", ["read_len", "check:len == 0", "refuse", "write_len:len - 1", "read_value"]),
+   ("remove", ["read_len", "check:index >= len", "refuse", "read_value", "copy", "write_len:len - 1"]),
+   ("push", ["read_len", "reserve:len + 1", "write_value", "write_len:len + 1"]),
+   ("insert", ["read_len", "check:index > len", "refuse", "reserve:len + 1", "copy", "write_value", "write_len:len + 1"])]
+
+/-- list.rs has the event order the model has: in particular `insert` refuses an index beyond the
+end BEFORE it reserves capacity, `remove` and `pop` before they write -/
+theorem gen_method_order_match : Gen.ListFwd.methodEvents = methodShape := by decide
+
+/-- in every method that can refuse, the refusal precedes the first event that changes memory -/
+theorem gen_refusal_before_effects :
+    Gen.ListFwd.methodEvents.all (fun me =>
+      match me.2.idxOf "refuse" with
+      | i => (me.2.take i).all (fun e => ["read_len", "check:len == 0", "check:index >= len", "check:index > len"].contains e)
+             || i == me.2.length) = true := by
+  rw [gen_method_order_match]; decide
+
+/-- the guards of the natives that can refuse an index, as `nativeBody` has them: ListInsert /
+ListRemove refuse a fractional and a negative index before anything else (`guardIndex`);
+`[]` / `[]=` scan first and then ask `determine_index` -/
+def guardShape : Native → Option (String × List String)
+  | .lget => some ("ListIndexGet", ["moved", "scan", "determine_index", "read", "index_error"])
+  | .lset => some ("ListIndexSet", ["moved", "scan", "determine_index", "write", "index_error"])
+  | .linsert => some ("ListInsert", ["fract", "negative", "insert", "moved", "scan", "oob_error"])
+  | .lremove => some ("ListRemove", ["fract", "negative", "moved", "scan", "remove", "oob_error"])
+  | _ => none
+
+theorem gen_native_guards_match :
+    Gen.ListFwd.nativeGuards = [Native.lget, .lset, .linsert, .lremove].filterMap guardShape := by decide
+
+/-- `determine_index` as `determineIndex` has it -/
+theorem gen_determine_index_match :
+    Gen.ListFwd.determineIndexRules = ["if index.fract() != 0.0", "Err", "if index < 0.0", "if negated_index > list.len()", "Err",
+      "Ok list.len() - negated_index", "if index >= list.len()", "Err", "Ok index"] := by decide
+
+/-- the declared parameters of the list natives, and `numberParam` points at the `Number` one
+(position in the argument slice, receiver first); `check_native_arity` runs before the native -/
+theorem gen_number_params_match :
+    Gen.ListFwd.nativeParams = [("ListIndexGet", ["index:Number"]), ("ListIndexSet", ["val:Object", "index:Number"]), ("ListLen", []),
+      ("ListPush", ["values:Object"]), ("ListPop", []), ("ListRemove", ["index:Number"]), ("ListIndex", ["value:Object"]),
+      ("ListInsert", ["index:Number", "val:Object"]), ("ListClear", []), ("ListHas", ["val:Object"])] ∧
+    [Native.lpush, .lpop, .lhas, .lindex, .lclear, .llen, .lget, .lset, .linsert, .lremove].all (fun n =>
+      match nativeShape n with
+      | some s => (match Gen.ListFwd.nativeParams.lookup s.1 with
+        | some ps => numberParam n == (if ps.contains "index:Number" then some (ps.idxOf "index:Number" + 1) else none)
+        | none => false)
+      | none => false) = true ∧
+    Gen.ListFwd.arityCheckedFirst = true := by decide
+
 /-! ### the pinned code breaks the full property (D7) -/
 
 /-- `fn main() { let a=[1,2,3,4]; let holder=[[a]]; let m={a: 7}; a.push(5);
@@ -447,6 +510,296 @@ theorem C10_full_false : ¬ C10_full := by
   have h1 := hfull witnessOps
   rw [C10_witness_alias_split.1, C10_witness_alias_split.2] at h1
   exact absurd h1 (by decide)
+
+/-! ### refused operations leave everything as it was -/
+
+/-- Spec: the mutations a list refuses, as a function of its contents (`IndexedResult::OutOfBounds`, `None`) -/
+def Mut.refused : Mut → List Val → Bool
+  | .insert i _, xs => decide (i > xs.length)
+  | .remove i, xs => decide (i ≥ xs.length)
+  | .pop, xs => xs.isEmpty
+  | _, _ => false
+
+/-- **C10_refused_method_unchanged** (list.rs, no hypothesis at all: every heap, well formed or not,
+every alias, every fuel).  `List::insert` answering `OutOfBounds`, `List::remove` answering
+`OutOfBounds` and `List::pop` answering `None` return the heap they were given — not a cell
+written, no `List::grow` — because each tests its bound before `ensure_capacity` / the writes. -/
+theorem C10_refused_method_unchanged (reloc : Bool) (fuel a i : Nat) (v : Val) (h : Heap) :
+    (((listInsert reloc fuel a i v).run h).1 = false →
+      ((listInsert reloc fuel a i v).run h).2 = h ∧ (listInsert reloc fuel a i v).grows h = 0) ∧
+    (((listRemove fuel a i).run h).1 = none →
+      ((listRemove fuel a i).run h).2 = h ∧ (listRemove fuel a i).grows h = 0) ∧
+    (((listPop fuel a).run h).1 = none →
+      ((listPop fuel a).run h).2 = h ∧ (listPop fuel a).grows h = 0) :=
+  ⟨listInsert_refused reloc fuel a i v h, listRemove_refused fuel a i h, listPop_refused fuel a h⟩
+
+/-- which calls are refused, in terms of the contents seen through the alias (reachable heaps) -/
+theorem refused_iff (h : Heap) (w : WF h) (reloc : Bool) (a i : Nat) (v : Val) (ha : IsListAlias h a) :
+    (((listInsert reloc (h.next + 1) a i v).run h).1 = false ↔ i > (items h a).length) ∧
+    (((listRemove (h.next + 1) a i).run h).1 = none ↔ i ≥ (items h a).length) ∧
+    (((listPop (h.next + 1) a).run h).1 = none ↔ items h a = []) := by
+  obtain ⟨o, cap, xs, hb⟩ := final_list h w a ha
+  have hx : items h a = xs := items_eq hb
+  refine ⟨?_, ?_, ?_⟩
+  · simp only [listInsert, withHere_final _ _ h w a o cap xs hb, hx]
+    by_cases hi : i > xs.length
+    · simp [hi]
+    · simp [hi]
+  · simp only [listRemove, withHere_final _ _ h w a o cap xs hb, hx]
+    cases hl : xs[i]? with
+    | none => simpa using hl
+    | some y =>
+      have : i < xs.length := by
+        apply Classical.byContradiction
+        intro hn
+        have : xs[i]? = none := by simp; omega
+        rw [this] at hl; cases hl
+      simp; omega
+  · simp only [listPop, withHere_final _ _ h w a o cap xs hb, hx]
+    cases hl : xs.getLast? with
+    | none => simpa using hl
+    | some y =>
+      simp
+      intro e; subst e; simp at hl
+
+/-- **C10_refused_leaves_heap.**  In every reachable heap, a mutation that the list refuses —
+insert beyond the end, remove at or beyond the end, pop of an empty list — made through ANY alias
+(current address or a forwarded old one), on a list with or without spare capacity, leaves the
+heap exactly as it was and relocates nothing. -/
+theorem C10_refused_leaves_heap (h : Heap) (w : WF h) (reloc : Bool) (μ : Mut) (a : Nat) (ha : IsListAlias h a)
+    (hr : μ.refused (items h a) = true) :
+    ((μ.model reloc (h.next + 1) a).run h).2 = h ∧ (μ.model reloc (h.next + 1) a).grows h = 0 := by
+  cases μ with
+  | push v => simp [Mut.refused] at hr
+  | set i v => simp [Mut.refused] at hr
+  | clear => simp [Mut.refused] at hr
+  | insert i v =>
+    have hi : i > (items h a).length := by simpa [Mut.refused] using hr
+    obtain ⟨e1, e2⟩ := listInsert_refused reloc (h.next + 1) a i v h (((refused_iff h w reloc a i v ha).1).mpr hi)
+    simp only [Mut.model, run_bind, grows_bind, e1, e2]
+    exact ⟨rfl, rfl⟩
+  | remove i =>
+    have hi : i ≥ (items h a).length := by simpa [Mut.refused] using hr
+    obtain ⟨e1, e2⟩ := listRemove_refused (h.next + 1) a i h (((refused_iff h w reloc a i .nil ha).2.1).mpr hi)
+    simp only [Mut.model, run_bind, grows_bind, e1, e2]
+    exact ⟨rfl, rfl⟩
+  | pop =>
+    have hi : items h a = [] := by simpa [Mut.refused] using hr
+    obtain ⟨e1, e2⟩ := listPop_refused (h.next + 1) a h (((refused_iff h w reloc a 0 .nil ha).2.2).mpr hi)
+    simp only [Mut.model, run_bind, grows_bind, e1, e2]
+    exact ⟨rfl, rfl⟩
+
+/-- the same in the property's words: after a refused mutation every address — every alias of the
+list, of any other list, any other object — has the identity, the final vector, the contents and
+the forward status it had; in particular equal aliases stay equal for the Model's address equality
+exactly when they were before (nothing the equality reads has changed). -/
+theorem C10_refused_identity_contents (h : Heap) (w : WF h) (reloc : Bool) (μ : Mut) (a : Nat) (ha : IsListAlias h a)
+    (hr : μ.refused (items h a) = true) (x : Nat) :
+    let h' := ((μ.model reloc (h.next + 1) a).run h).2
+    ident h' x = ident h x ∧ final h' x = final h x ∧ items h' x = items h x ∧ isFwd h' x = isFwd h x ∧
+      h'.mem x = h.mem x ∧ h'.next = h.next := by
+  intro h'
+  have e : h' = h := (C10_refused_leaves_heap h w reloc μ a ha hr).1
+  rw [e]
+  exact ⟨rfl, rfl, rfl, rfl, rfl, rfl⟩
+
+/-- **C10_refused_native.**  For EVERY native of the machine, every machine state and every heap:
+if the call ends in `Call::Err` (fractional / negative / out-of-range / non-number index,
+`determine_index` failure, missing map key) then (1) no list was relocated by it, and (2) if the
+receiver's header is not a forwarding pointer (`!list.has_moved()`: no `scan_roots`), the heap and
+the machine (stack included) are exactly what they were. -/
+theorem C10_refused_native (reloc : Bool) (m : M) (f : Native) (argc : Nat) (h : Heap) (n : String)
+    (hr : ((nativeBody reloc m f argc).run h).1.2 = .err n) :
+    (nativeBody reloc m f argc).grows h = 0 ∧
+    (isFwd h (m.recvOf argc) = false →
+      ((nativeBody reloc m f argc).run h).2 = h ∧ ((nativeBody reloc m f argc).run h).1.1 = m) := by
+  unfold nativeBody at hr ⊢
+  simp only [run_bind, grows_bind, run_limitM, grows_limitM] at hr ⊢
+  by_cases hs : sigRejects f (fun i => m.fib.get (m.fib.top - (argc + 1) + i)) = true
+  · simp [hs]
+  · simp only [hs, Bool.false_eq_true, if_false] at hr ⊢
+    cases f with
+    | lpush => simp at hr
+    | lpop => simp at hr
+    | lhas => simp at hr
+    | lindex => simp at hr
+    | lclear => simp at hr
+    | llen => simp at hr
+    | mset =>
+      simp only [run_bind, run_readM] at hr
+      split at hr <;> simp at hr
+    | mgetm =>
+      simp only [run_bind, run_readM] at hr
+      split at hr <;> simp at hr
+    | mhas =>
+      simp only [run_bind, run_readM] at hr
+      split at hr <;> simp at hr
+    | mlen =>
+      simp only [run_bind, run_readM] at hr
+      split at hr <;> simp at hr
+    | tget =>
+      simp only [run_bind, run_readM] at hr
+      split at hr <;> simp at hr
+    | thas =>
+      simp only [run_bind, run_readM] at hr
+      split at hr <;> simp at hr
+    | tindex =>
+      simp only [run_bind, run_readM] at hr
+      split at hr <;> simp at hr
+    | tlen =>
+      simp only [run_bind, run_readM] at hr
+      split at hr <;> simp at hr
+    | lget =>
+      simp only [run_bind, grows_bind, scanIfMoved_grows, (listItems_heap _ _ _).1, (listItems_heap _ _ _).2, Nat.add_zero, Nat.zero_add] at hr ⊢
+      constructor
+      · split <;> simp
+      · intro hm
+        simp only [M.recvOf] at hm
+        simp only [scanIfMoved_here m _ h hm] at hr ⊢
+        split <;> simp
+    | lset =>
+      simp only [run_bind, grows_bind, scanIfMoved_grows, (listItems_heap _ _ _).1, (listItems_heap _ _ _).2, Nat.add_zero, Nat.zero_add] at hr ⊢
+      constructor
+      · split <;> simp [listSet_grows]
+      · intro hm
+        simp only [M.recvOf] at hm
+        simp only [scanIfMoved_here m _ h hm] at hr ⊢
+        generalize determineIndex _ _ = d at hr ⊢
+        cases d with
+        | none => simp
+        | some i => simp at hr
+    | linsert =>
+      simp only [Nat.add_zero, Nat.zero_add] at hr ⊢
+      generalize guardIndex _ = g at hr ⊢
+      cases g with
+      | none => simp
+      | some i =>
+        simp only [run_bind, grows_bind, scanIfMoved_grows, Nat.zero_add] at hr ⊢
+        generalize hins : listInsert reloc h.next _ i _ = ins at hr ⊢
+        cases hok : (ins.run h).1 with
+        | true => simp [hok] at hr
+        | false =>
+          subst hins
+          obtain ⟨e1, e2⟩ := listInsert_refused _ _ _ _ _ _ hok
+          simp only [hok, e1, e2] at hr ⊢
+          constructor
+          · simp
+          · intro hm
+            simp only [M.recvOf] at hm
+            simp [scanIfMoved_here m _ h hm]
+    | lremove =>
+      simp only [Nat.add_zero, Nat.zero_add] at hr ⊢
+      generalize guardIndex _ = g at hr ⊢
+      cases g with
+      | none => simp
+      | some i =>
+        simp only [run_bind, grows_bind, scanIfMoved_grows, listRemove_grows, Nat.zero_add] at hr ⊢
+        constructor
+        · split <;> simp
+        · intro hm
+          simp only [M.recvOf] at hm
+          simp only [scanIfMoved_here m _ h hm] at hr ⊢
+          generalize hrem : listRemove h.next _ i = rem at hr ⊢
+          cases hok : (rem.run h).1 with
+          | some v => simp [hok] at hr
+          | none =>
+            subst hrem
+            obtain ⟨e1, e2⟩ := listRemove_refused _ _ _ _ hok
+            simp [e1]
+    | mget =>
+      simp only [run_bind, grows_bind, run_readM, grows_readM, Nat.add_zero, Nat.zero_add] at hr ⊢
+      generalize h.mem _ = cell at hr ⊢
+      constructor
+      · split
+        · split <;> simp
+        · simp
+      · intro _
+        split
+        · split <;> simp
+        · simp
+    | mremove =>
+      simp only [run_bind, grows_bind, run_readM, grows_readM, Nat.add_zero, Nat.zero_add] at hr ⊢
+      generalize h.mem _ = cell at hr ⊢
+      constructor
+      · split
+        · split <;> simp
+        · simp
+      · intro _
+        split at hr
+        · split at hr
+          · simp at hr
+          · simp
+        · simp at hr
+
+/-- the heap after `call_native` is the heap after the native's body (the return / the unwind only
+touch the stack), and it relocates exactly as often -/
+theorem callNative_heap (reloc : Bool) (m : M) (f : Native) (argc : Nat) (h : Heap) :
+    ((callNative reloc m f argc).run h).2 = ((nativeBody reloc m f argc).run h).2 ∧
+    (callNative reloc m f argc).grows h = (nativeBody reloc m f argc).grows h := by
+  simp only [callNative, run_bind, grows_bind]
+  cases ((nativeBody reloc m f argc).run h).1.2 <;> simp
+
+/-- **C10_refused_call_no_stale.**  In every reachable heap a native call that raises turns no header
+into a forwarding pointer: every alias that was current stays current, so a refused operation can
+never be the cause of an alias split (that is reserved to successful growth, D7). -/
+theorem C10_refused_call_no_stale (reloc : Bool) (m : M) (f : Native) (argc : Nat) (h : Heap) (w : WF h) (n : String)
+    (hr : ((nativeBody reloc m f argc).run h).1.2 = .err n) (a : Nat) :
+    isFwd ((callNative reloc m f argc).run h).2 a = isFwd h a ∧
+    ident ((callNative reloc m f argc).run h).2 a = ident h a ∨ h.next ≤ a := by
+  by_cases ha : a < h.next
+  · left
+    have hg : (callNative reloc m f argc).grows h = 0 := by
+      rw [(callNative_heap reloc m f argc h).2]; exact (C10_refused_native reloc m f argc h n hr).1
+    exact ⟨run_no_grow _ h w hg a, (run_wf_ext _ h w).2.ident_eq a ha⟩
+  · right; omega
+
+/-- the machine with the seeded shape of the demonstration: `a = [1,2,3,4]` (length = capacity),
+`nested = [[a]]`, then `try { a.insert(9, 5); print("accepted") } catch e: Error { print("rejected") }`
+and `print(a == nested[0][0])`, `print(a.len())` -/
+def refusedOps : List Op :=
+  [.const 1, .const 2, .const 3, .const 4, .list 4,
+   .getl 2, .list 1, .list 1,
+   .tryb, .getl 2, .bind, .const 9, .const 5, .call .linsert 2, .drop, .pushfn, .pushfn, .say 1, .drop, .trye 6,
+   .catchb, .pushfn, .pushfn, .say 0, .drop, .endc,
+   .pushfn, .getl 2, .getl 3, .const 0, .call .lget 1, .const 0, .call .lget 1, .eq, .print, .drop,
+   .pushfn, .getl 2, .call .llen 0, .print, .drop]
+
+set_option maxRecDepth 8000 in
+/-- non-vacuity: on the exact model the refused insert on the full list raises, relocates nothing,
+the stack is back at the depth of the `try`, and Model and Spec both print rejected / true / 4;
+the same history with index 2 is accepted, relocates (4 = capacity) and splits the nested alias (D7) -/
+example :
+    (runOps true refusedOps Heap.empty {}).2.out = ["4", "true", "rejected"] ∧
+    (runOps true refusedOps Heap.empty {}).2.raises = 1 ∧ (runOps true refusedOps Heap.empty {}).2.fib.top = 4 ∧
+    isFwd (runOps true refusedOps Heap.empty {}).1 0 = false := by
+  refine ⟨by decide, by decide, by decide, by decide⟩
+
+set_option maxRecDepth 8000 in
+example : (runOps false refusedOps Heap.empty {}).2.out = ["4", "true", "rejected"] := by decide
+
+/-- the accepted variant (index 2) -/
+def acceptedOps : List Op := refusedOps.map (fun op => if op = .const 9 then .const 2 else op)
+
+set_option maxRecDepth 8000 in
+example : (runOps true acceptedOps Heap.empty {}).2.out = ["5", "false", "accepted"] ∧
+    (runOps false acceptedOps Heap.empty {}).2.out = ["5", "true", "accepted"] := by
+  refine ⟨by decide, by decide⟩
+
+set_option maxRecDepth 8000 in
+/-- non-vacuity of `C10_refused_native`'s hypotheses: on the machine just before that call the body of
+ListInsert ends in `Err`, and the receiver's header is `Here` -/
+example :
+    let s := runOps true (refusedOps.take 13) Heap.empty {}
+    let m := s.2.setFib (s.2.fib.peekSet 2 (.ref 0))
+    ((nativeBody true m .linsert 2).run s.1).1.2 = .err "IndexError" ∧ isFwd s.1 (m.recvOf 2) = false := by
+  decide
+
+/-- non-vacuity of `C10_refused_leaves_heap`: the witness heap of D7 (list relocated to address 4,
+5 elements); insert at 6 and remove at 5 through the OLD address 0 are refused -/
+example : IsListAlias (runOps true witnessOps Heap.empty {}).1 0 ∧
+    (Mut.insert 6 .nil).refused (items (runOps true witnessOps Heap.empty {}).1 0) = true ∧
+    (Mut.remove 5).refused (items (runOps true witnessOps Heap.empty {}).1 0) = true := by
+  refine ⟨Or.inr ⟨4, by decide⟩, by decide, by decide⟩
 
 /-! ### non-vacuity -/
 
